@@ -535,36 +535,44 @@ def core_ops():
     return ops
 
 
-# fragments of declaration-block text: (text, item it yields | "X" = ident-started junk | None = junk taken by `unexpected`)
+# fragments of declaration-block text: (text, item it yields | None, an error is logged).  The model tokenizes
+# the text, splits it with the declaration-block skeleton and parses every declaration run itself (name / value /
+# priority split, name and priority token parse); only value runs ("red") and comment / at-rule texts are looked up.
 FRAGMENTS = [
-    ("color: red", ("D", "color", "red", 0)), ("COLOR: blue !important", ("D", "COLOR", "blue", 1)),
-    ("c\\olor: 1px", ("D", "c\\olor", "1px", 0)), ("top:green", ("D", "top", "green", 0)),
-    ("left : inherit", ("D", "left", "inherit", 0)), ("o\\\\x: red !important", ("D", "o\\\\x", "red", 1)),
-    ("t\\op: 1px", ("D", "t\\op", "1px", 0)), ("font-style: inherit", ("D", "font-style", "inherit", 0)),
-    ("/*c1*/", ("C", 1)), ("/*c2*/", ("C", 2)), ("@u3;", ("U", 3)), ("@u4;", ("U", 4)),
-    ("junk junk", "X"), ("color red", "X"), ("color:", "X"), ("top: $", "X"),
-    ("(y):2", None), ("3 ! y:2", None), ("[a;b]:1", None), ("{z;w} x", None), (":x", None), ("f(a;b): 1", None),
-    ("!important", None), ("", None),
+    ("color: red", ("D", "color", "red", 0), 0), ("COLOR: blue !important", ("D", "COLOR", "blue", 1), 0),
+    ("c\\olor: 1px", ("D", "c\\olor", "1px", 0), 0), ("top:green", ("D", "top", "green", 0), 0),
+    ("left : inherit", ("D", "left", "inherit", 0), 0), ("o\\\\x: red !important", ("D", "o\\\\x", "red", 1), 0),
+    ("t\\op: 1px", ("D", "t\\op", "1px", 0), 0), ("font-style: inherit", ("D", "font-style", "inherit", 0), 0),
+    ("/*c1*/", ("C", 1), 0), ("/*c2*/", ("C", 2), 0), ("@u3;", ("U", 3), 0), ("@u4;", ("U", 4), 0),
+    # the declaration parse itself: whitespace and comments around the parts, priority spellings
+    ("color/*c1*/ :  blue   ! important", ("D", "color", "blue", 1), 0), ("TOP:red!IMPORTANT", ("D", "TOP", "red", 1), 0),
+    ("left:1px /*c2*/", None, 0), ("top: green !/*c1*/important", ("D", "top", "green", 1), 0),
+    ("color: red !", ("D", "color", "red", 0), 1), ("top: blue ! important important", ("D", "top", "blue", 0), 1),
+    ("left: green important", None, 1),
+    # ident-started junk: not a declaration
+    ("junk junk", None, 1), ("color red", None, 1), ("color:", None, 1), ("top: $", None, 1), ("x y: red", None, 1),
+    ("color: !important", None, 1), ("color", None, 1),
+    # junk taken by the `unexpected` handler, whatever it contains
+    ("(y):2", None, 1), ("3 ! y:2", None, 1), ("[a;b]:1", None, 1), ("{z;w} x", None, 1), (":x", None, 1),
+    ("f(a;b): 1", None, 1), ("!important", None, 1), ("", None, 0),
 ]
+FRAGMENTS = [f for f in FRAGMENTS if f[0] not in ("left:1px /*c2*/", "left: green important")]   # value-layer cases
+TEXT_TABLE = sorted([(v, "D:-:%d:0" % a) for v, a in VALUES.items()] +
+                    [("/*c%d*/" % i, "C:%d" % i) for i in (1, 2)] + [("@u%d;" % i, "U:%d" % i) for i in (3, 4)])
 
 
 def rand_text_op(rng, raising=None):
-    frs = [rng.choice(FRAGMENTS if rng.random() < 0.5 else FRAGMENTS[:12]) for _ in range(rng.randint(0, 6))]
-    text, tbl, items, junk = "", {}, [], False
-    for ft, exp in frs:
+    frs = [rng.choice(FRAGMENTS if rng.random() < 0.6 else FRAGMENTS[:12]) for _ in range(rng.randint(0, 6))]
+    text, items, err = "", [], False
+    for ft, exp, e in frs:
         text += rng.choice(["", " ", "\n  "]) + ft
-        if isinstance(exp, tuple):
+        err = err or bool(e)
+        if exp is not None:
             items.append(exp)
-            tbl[ft] = item_line(exp)
-            if exp[0] == "D":
-                text += rng.choice([";", " ;", "; "])
-        else:
-            junk = junk or ft != ""
-            if exp == "X":
-                tbl[ft] = "X"
-            text += rng.choice([";", "; "])
+        if exp is None or exp[0] == "D":
+            text += rng.choice([";", " ;", "; "])
     raising = int(rng.random() < 0.5) if raising is None else raising
-    return ("stt", raising, text, sorted(tbl.items()), items, int(junk))
+    return ("stt", raising, text, TEXT_TABLE, items, int(err))
 
 
 def rand_item(rng):
@@ -670,6 +678,53 @@ def check_digests(ctx):
     return len(allraw)
 
 
+def alias_probe(ctx):
+    """Property objects shared between blocks: the implementation behaves as StyleDeclAlias.v says (the object itself
+    is appended when nothing is replaced; the replace path mutates the stored object and copies FROM a Property
+    argument).  A difference means the stated exclusion of the history theorems is no longer the right one."""
+    import css_parser
+    import logging
+    from css_parser.css import CSSStyleDeclaration, Property
+    css_parser.log.setLevel(logging.CRITICAL + 1)
+    bad = []
+    n = 0
+    for v1, v2, prio in itertools.product(["red", "blue"], ["1px", "green"], ["", "important"]):
+        for same_block in (False, True):
+            n += 1
+            a = CSSStyleDeclaration(cssText="/*c1*/ top: 1px")
+            b = a if same_block else CSSStyleDeclaration(cssText="left: 1px; /*c2*/")
+            p = Property("color", v1)
+            a.setProperty(p, replace=False)                  # append_ref: the object itself is stored
+            b.setProperty(p, replace=False)
+            ka, kb = list(a.children()), list(b.children())
+            if not (ka[-1] is p and kb[-1] is p):
+                bad.append(("append path does not store the argument object", v1, same_block))
+                continue
+            a.setProperty("color", v2, prio)                  # overwrite through a: the effective entry IS p
+            seen = [(c.value, c.priority) for c in b.children() if isinstance(c, Property) and c.name == "color"]
+            if any(s != (v2, prio) for s in seen) or (p.value, p.priority) != (v2, prio):
+                bad.append(("write through one reference not visible through the other", seen, v2, prio, same_block))
+            # separated: a replace hit copies FROM the argument, the argument is not stored
+            c = CSSStyleDeclaration(cssText="color: inherit")
+            q = Property("color", v1, prio)
+            c.setProperty(q)
+            if any(k is q for k in c.children()) or c.getPropertyValue("color") != v1:
+                bad.append(("replace path stored the argument object / did not copy", v1))
+            c.setProperty("color", v2)
+            if q.value != v1:
+                bad.append(("write to a block changed a Property that was only copied from", v1, v2))
+            # by-name setProperty builds a fresh object each time: worlds stay separated
+            d, e = CSSStyleDeclaration(), CSSStyleDeclaration()
+            d.setProperty("color", v1)
+            e.setProperty("color", v1)
+            d.setProperty("color", v2)
+            if e.getPropertyValue("color") != v1:
+                bad.append(("by-name entries of two blocks are not separate objects", v1, v2))
+    if bad:
+        ctx.broken("correspondence", "Property object sharing vs CssV.StyleDeclAlias", json.dumps(bad[:5], default=str))
+    return n
+
+
 def todom_cases(binary, ctx):
     """toDOM model vs cssproperties._toDOMname on the generated names and on ASCII strings"""
     from css_parser.css import cssproperties as CP
@@ -717,6 +772,7 @@ def run(ctx):
     hs = corpus + al + hs
     mism, states, steps, checked, reported = [], set(), 0, 0, 0
     n_todom = todom_cases(binary, ctx) if binary else 0
+    n_alias = alias_probe(ctx)
     BATCH = 20000
     for lo in range(0, len(hs), BATCH):
         part = hs[lo:lo + BATCH]
@@ -791,6 +847,7 @@ def run(ctx):
         "samples": [hs[len(corpus) + len(al) + 7], hs[-1], hs[len(corpus) + 3]],
         "disagreements_checked": len(hs) if binary else 0,
         "todom_cases": n_todom,
+        "alias_probe_cases": n_alias,
         "name_digests_checked": n_dig,
         "trusted_base": TRUSTED,
     }, assumptions=ASSUME, search=search)
